@@ -1343,6 +1343,9 @@ func (ev *symEval) evalValue(fr *symFrame, st *symState, v ssa.Value) SV {
 				st.trace = append(st.trace, Event{Kind: "assert-unknown", What: typeStr(x.AssertedType), Args: []string{a.Desc}, In: fname(fr.fn)})
 			default:
 				st.trace = append(st.trace, Event{Kind: "assert-ok", What: typeStr(x.AssertedType), Args: []string{a.Desc}, In: fname(fr.fn)})
+				if (a.K == "addr" || a.K == "ref" && a.Known && !a.Nil) && !strings.HasPrefix(a.Desc, "known(") {
+					return a // the boxed value itself
+				}
 			}
 		}
 		r := defaultFor(x.AssertedType, d)
